@@ -58,7 +58,9 @@ def main():
         if r.returncode != 0:
             print('patch does not apply:', r.stdout)
             return 2
-        r = sh('cd %s && /venv/bin/python %s' % (tree, os.path.join(d, 'demo.py')), env=env, timeout=600)
+        # the demonstration is written to be run from the root of the tree it tests
+        sh('cp %s %s/demo.py' % (os.path.join(d, 'demo.py'), tree))
+        r = sh('cd %s && /venv/bin/python demo.py' % tree, env=env, timeout=600)
         res['demo_with_change'] = {'exit': r.returncode, 'tail': r.stdout[-400:]}
         for p in props:
             t = time.time()
@@ -76,8 +78,9 @@ def main():
             res['checks'][p] = {'exit': r.returncode, 'wall_s': round(time.time() - t, 1),
                                 'lines': [l[:300] for l in lines if not l.startswith('KNOWN')], 'replay': replay}
         sh('git -C %s checkout -- .' % tree)
-        r = sh('cd %s && /venv/bin/python %s' % (tree, os.path.join(d, 'demo.py')), env=env, timeout=600)
+        r = sh('cd %s && /venv/bin/python demo.py' % tree, env=env, timeout=600)
         res['demo_without_change'] = {'exit': r.returncode, 'tail': r.stdout[-200:]}
+        sh('rm -f %s/demo.py' % tree)
     finally:
         if in_repo:
             sh('git -C %s checkout -- .' % REPO)
